@@ -26,7 +26,7 @@ PLAN = {
     "thorough": {"shards": 16, "shard_timeout": 3600, "case_timeout": 120, "grid_sizes": [2, 3, 4, 5, 6, 7, 8, 9, 10, 11, 12, 13, 16, 25, 50, 100, 101], "nest": 400000, "gp": 40000, "max_case_timeouts": 10},
 }
 THRESHOLDS = {
-    "quick": {"step_applications": 20000, "grid_points": 15000, "leaf_applications": 300, "nested_applications": 300, "initialisations": 100, "gp_generations_counted": 100, "form:iterator": 2000, "form:population": 2000, "form:list": 2000},
+    "quick": {"step_applications": 20000, "grid_points": 15000, "leaf_applications": 300, "nested_applications": 300, "initialisations": 100, "gp_generations_counted": 100, "form:iterator": 2000, "form:population": 2000, "form:list": 2000, "initialisations_on_the_deep_grammar": 40, "gp_runs_with_explicit_initialiser": 6},
     "thorough": {"step_applications": 300000, "grid_points": 250000, "gp_generations_counted": 4000},
 }
 
@@ -106,17 +106,20 @@ def gen_cases(tier, seed):
         yield {"kind": "gp", "spec": gen_spec(rng, 1) if i % 3 else "default", "n": rng.choice([2, 3, 4, 5, 7, 10, 11, 12, 20]), "gens": rng.randint(2, 6), "repr": rng.choice(["tree", "ge"]), "seed": rng.randrange(10**6)}
     for n in [1, 2, 3, 4, 5, 8, 10, 11]:
         yield {"kind": "init", "n": n, "seed": rng.randrange(10**6)}
+        yield {"kind": "init", "n": n, "grammar": "deep", "seed": rng.randrange(10**6)}  # shallowest program three levels deep
+    for i in range(max(6, plan["gp"] // 4)):  # whole runs whose FIRST generation comes from each initialiser, on both grammars
+        yield {"kind": "gp", "spec": "default" if i % 2 else gen_spec(rng, 1), "n": rng.choice([2, 3, 5, 8, 12]), "gens": rng.randint(2, 4), "repr": "tree", "grammar": rng.choice(["tiny", "deep", "deep"]), "initialiser": rng.choice(["Grow", "PIGrow", "Ramped", "Full", "Standard"]), "seed": rng.randrange(10**6)}
 
 
 class Env:
-    def __init__(self, seed, repr_kind="tree"):
+    def __init__(self, seed, repr_kind="tree", grammar="tiny"):
         from geneticengine.evaluation.sequential import SequentialEvaluator
         from geneticengine.evaluation.tracker import SingleObjectiveProgressTracker
         from geneticengine.problems import SingleObjectiveProblem
 
-        self.g, _ = evo.tiny()
+        self.g, _ = evo.tiny() if grammar == "tiny" else evo.tiny_deep()
         self.src = workload.native(seed)
-        self.rep = evo.make_rep(repr_kind, self.g, self.src)
+        self.rep = evo.make_rep(repr_kind, self.g, self.src, max_depth=4 if grammar == "tiny" else 6)
         self.fit = evo.TableFitness()
         self.prob = SingleObjectiveProblem(self.fit, minimize=False)
         self.ev = SequentialEvaluator()
@@ -245,15 +248,23 @@ def run_gp(case, rec):
     from geneticengine.evaluation.tracker import SingleObjectiveProgressTracker
 
     rng = pyrandom.Random(case["seed"])
-    env = Env(case["seed"], case["repr"])
+    env = Env(case["seed"], case["repr"], grammar=case.get("grammar", "tiny"))
     R = evo.make_recorder_class()
     r = R()
     tracker = SingleObjectiveProgressTracker(env.prob, env.ev, recorders=[r])
     n = case["n"]
     step = None if case["spec"] == "default" else build(case["spec"], rng)
+    kw = {}
+    if case.get("initialiser"):
+        from geneticengine.algorithms.gp.operators.initializers import StandardInitializer
+        from geneticengine.representations.tree.operators import FullInitializer, GrowInitializer, PositionIndependentGrowInitializer, RampedHalfAndHalfInitializer
+
+        d = 3 if case.get("grammar", "tiny") == "tiny" else 5
+        kw["population_initializer"] = {"Grow": GrowInitializer(), "PIGrow": PositionIndependentGrowInitializer(d), "Ramped": RampedHalfAndHalfInitializer(d), "Full": FullInitializer(d), "Standard": StandardInitializer()}[case["initialiser"]]
+        rec.count("gp_runs_with_explicit_initialiser")
     # a check-counting budget: an evaluation budget is never met by steps that create nothing (C14's finding)
-    gp = GeneticProgramming(env.prob, evo.check_count_budget(case["gens"]), env.rep, env.src, tracker=tracker, population_size=n, step=step)
-    wit = {"composition": case["spec"], "population_size": n, "repr": case["repr"]}
+    gp = GeneticProgramming(env.prob, evo.check_count_budget(case["gens"]), env.rep, env.src, tracker=tracker, population_size=n, step=step, **kw)
+    wit = {"composition": case["spec"], "population_size": n, "repr": case["repr"], "grammar": case.get("grammar", "tiny"), "initialiser": case.get("initialiser")}
     try:
         gp.search()
     except core.CaseTimeout:
@@ -300,15 +311,18 @@ def run_init(case, rec):
     )
 
     n = case["n"]
-    env = Env(case["seed"])
+    env = Env(case["seed"], grammar=case.get("grammar", "tiny"))
+    d = 3 if case.get("grammar", "tiny") == "tiny" else 5
     inits = {
         "Standard": StandardInitializer(),
         "Grow": GrowInitializer(),
-        "Full": FullInitializer(3),
-        "PIGrow": PositionIndependentGrowInitializer(3),
-        "Ramped": RampedHalfAndHalfInitializer(3),
-        "HalfAndHalf": HalfAndHalfInitializer(GrowInitializer().initialize, FullInitializer(3).initialize),
+        "Full": FullInitializer(d),
+        "PIGrow": PositionIndependentGrowInitializer(d),
+        "Ramped": RampedHalfAndHalfInitializer(d),
+        "HalfAndHalf": HalfAndHalfInitializer(GrowInitializer().initialize, FullInitializer(d).initialize),
     }
+    if case.get("grammar") == "deep":
+        rec.count("initialisations_on_the_deep_grammar", len(inits))
     pool = evo.individuals(env.rep, env.src, n + 2)
     for m in range(0, n + 3):
         progs = [(i.genotype if j % 2 else i) for j, i in enumerate(pool[:m])]
